@@ -7,11 +7,12 @@ if [ ! -d .pydeps/jsonschema ]; then
 fi
 export PYTHONPATH=/repo:/verif:/verif/.pydeps PYTHONHASHSEED=0 PYTHONDONTWRITEBYTECODE=1
 /venv/bin/python tools/gen_kernels.py >/dev/null
+/venv/bin/python -c "from harness import vlib; vlib.ensure_makefile()"
 cd coq
-coq_makefile -f _CoqProject -o Makefile >/dev/null 2>&1
+mkdir -p /verif/.log
 # -k: a proof that does not check (e.g. against an edited /repo) must not stop the rest
-timeout 3000 make -k -j14 >/tmp/verif_setup_make.log 2>&1
+timeout 3000 make -k -j14 >/verif/.log/setup_make.log 2>&1
 rc=$?
-tail -5 /tmp/verif_setup_make.log
+tail -5 /verif/.log/setup_make.log
 echo "setup: make exit $rc"
 exit 0
